@@ -3,7 +3,7 @@
 # and merges the verdicts into sensitivity.txt (lines of other seeds are kept) and into the seeds' meta.json
 HERE="$(cd "$(dirname "$0")/.." && pwd)"; cd "$HERE"
 TMP=/tmp/sensupd_$$.txt
-printf '%s\n' "$@" | xargs -P 3 -I{} tools/run_seed.sh {} > $TMP 2>&1
+printf '%s\n' "$@" | xargs -P ${SENS_P:-3} -I{} tools/run_seed.sh {} > $TMP 2>&1
 /venv/bin/python - "$TMP" <<'PY'
 import json, re, os, sys
 new = {}
